@@ -1322,18 +1322,28 @@ class TexArgs(list):
         """
         arg = self.__coerce(arg)
 
-        if isinstance(arg, (TexGroup, TexCmd)):
+        # normalize the index the way list.insert does
+        if i < 0:
+            i = max(len(self) + i, 0)
+        i = min(i, len(self))
+
+        is_item = isinstance(arg, (TexGroup, TexCmd))
+        if is_item:
             super().insert(i, arg)
 
-        if len(self) <= 1:
-            self.all.append(arg)
+        if i > 0:
+            index = self.__index_in_all(self[i - 1]) + 1
+        elif len(self) > int(is_item):
+            index = self.__index_in_all(self[int(is_item)])
         else:
-            if i > len(self):
-                i = len(self) - 1
+            index = len(self.all)
+        self.all.insert(index, arg)
 
-            before = self[i - 1]
-            index_before = self.all.index(before)
-            self.all.insert(index_before + 1, arg)
+    def __index_in_all(self, item):
+        for index, other in enumerate(self.all):
+            if other is item:
+                return index
+        return self.all.index(item)
 
     def remove(self, item):
         """Remove either an unparsed argument string or an argument object.
@@ -1381,7 +1391,7 @@ class TexArgs(list):
         BraceGroup('arg0')
         """
         item = super().pop(i)
-        j = self.all.index(item)
+        j = self.__index_in_all(item)
         return self.all.pop(j)
 
     def reverse(self):
